@@ -52,7 +52,7 @@ Section MemProofs.
   Qed.
 
   Lemma mload_warm m us :
-    (forall u, In u us -> has m (mangle (md5 u) s_document)) -> mload md5 0 m us = ([], m).
+    (forall u, In u us -> has m (mangle (md5 u) s_document)) -> mload md5 0 m us = (map EvParsed us, m).
   Proof.
     induction us as [|u us IH]; intro H; [reflexivity|].
     cbn [mload]. unfold mdoc_open. cbn [N.eqb].
@@ -66,17 +66,20 @@ Section MemProofs.
     pol = 0%N \/ pol = 1%N ->
     let '(_, o1, _, s1) := mdefs_open md5 w i pol u1 s in
     let '(f2, o2, _, _) := mdefs_open md5 w j pol u2 s1 in
-    f2 = [] /\ (pol = 1%N -> o2 = o1).
+    fetched_of f2 = [] /\ (pol = 0%N -> parsed_of f2 = w_docs w) /\ (pol = 1%N -> o2 = o1).
   Proof.
     intros [->| ->].
     - unfold mdefs_open. cbn [N.eqb Pos.eqb].
       pose proof (mload_has 0 (m_mem s) (w_docs w)) as [_ L].
       destruct (mload md5 0 (m_mem s) (w_docs w)) as [f m1]. cbn in L |- *.
-      rewrite (mload_warm m1 (w_docs w)) by (apply L; reflexivity). cbn. split; [reflexivity|discriminate].
+      rewrite (mload_warm m1 (w_docs w)) by (apply L; reflexivity). cbn.
+      split; [|split; [intros _|discriminate]].
+      + induction (w_docs w); [reflexivity|assumption].
+      + induction (w_docs w) as [|a l IHl]; [reflexivity|cbn; f_equal; exact IHl].
     - unfold mdefs_open. cbn [N.eqb Pos.eqb].
       destruct (mem_get (m_mem s) (mangle (md5 (w_main w)) s_wsdl)) as [o|] eqn:G.
-      + cbn. rewrite G. cbn. auto.
+      + cbn. rewrite G. cbn. split; [reflexivity|split; [discriminate|auto]].
       + destruct (mload md5 1 (m_mem s) (w_docs w)) as [f m1]. cbn.
-        unfold mem_put at 1. cbn. rewrite str_eqb_refl. cbn. auto.
+        unfold mem_put at 1. cbn. rewrite str_eqb_refl. cbn. split; [reflexivity|split; [discriminate|auto]].
   Qed.
 End MemProofs.
